@@ -593,6 +593,16 @@ fn check() {
         samples.push(json!({"never_ending_fields": table}));
     }
 
+    // ---- QUIC transport parameters chosen by the peer (real binary, real quinn peer): see c05q.rs
+    {
+        let (qcases, table) = super::c05q::quic_peer_params(&chk);
+        ctr.cases.fetch_add(qcases, Ordering::Relaxed);
+        for t in &table {
+            ctr.outcomes.add(&("quic-params", t.split("->").last().unwrap_or("").to_string()));
+        }
+        samples.push(json!({"quic_peer_transport_parameters": table}));
+    }
+
     let n = ctr.cases.load(Ordering::Relaxed);
     if chk.violation_count() == 0 && (n < 100_000 || ctr.outcomes.len() < 15) {
         machinery(format!("vacuous: cases={n} outcomes={}", ctr.outcomes.len()));
@@ -601,7 +611,7 @@ fn check() {
         "exhaustive": true,
         "states": ctr.outcomes.len(), "transitions": n, "traces_validated_against_impl": n,
         "evaluations": n, "distinct_nontrivial": ctr.outcomes.len(),
-        "rule": "inputs enumerated per decoder: every (id,total,seq) fragment header x 3 payload lengths + all sequences of 2 (thorough 3) datagrams over a 98-header alphabet; structured RPFM header/attribute grid (through the stream reader, from_buffer and the fragment layer) + every truncation; SOCKS-UDP header grid; all byte strings up to length 5 (thorough 6) over 12-symbol alphabets for the HTTP and SOCKS decoders (bare and behind a valid first line); every single-byte substitution/deletion of every valid message; h11c_handshake on 25 request heads; h11c_connect on 22 upstream replies x feature x channel; the SOCKS connector's handshake against every method-selection byte x 9 continuations x credentials configured or not (v5) and a v4 slice; 11 unbounded fields (+3 length-prefixed controls) fed a never-ending input: the decoder must give up within 1 MiB. distinct = distinct (decoder, ok/err class) outcomes",
+        "rule": "inputs enumerated per decoder: every (id,total,seq) fragment header x 3 payload lengths + all sequences of 2 (thorough 3) datagrams over a 98-header alphabet; structured RPFM header/attribute grid (through the stream reader, from_buffer and the fragment layer) + every truncation; SOCKS-UDP header grid; all byte strings up to length 5 (thorough 6) over 12-symbol alphabets for the HTTP and SOCKS decoders (bare and behind a valid first line); every single-byte substitution/deletion of every valid message; h11c_handshake on 25 request heads; h11c_connect on 22 upstream replies x feature x channel; the SOCKS connector's handshake against every method-selection byte x 9 continuations x credentials configured or not (v5) and a v4 slice; 11 unbounded fields (+3 length-prefixed controls) fed a never-ending input: the decoder must give up within 1 MiB; QUIC transport parameters: a real quinn peer announcing max_datagram_frame_size in {1..14, 16, 20, 32, 100, 1200} (thorough 1..40 and more) as client of the quic listener and as upstream of the quic connector of the REAL binary, one UDP datagram each way: the process stays alive and serves. distinct = distinct (decoder, ok/err class) outcomes",
         "samples": samples,
     });
     chk.finish(
